@@ -19,7 +19,7 @@ if [ "$tier" = replay ]; then   # ./checks/C18.sh replay <file>
     REPO=${VERIF_REPO:-/repo}; [ -z "${VERIF_MODFLAG:-}" ] && cp $REPO/go.sum sim/go.sum
     for tg in "$ta" "$tb"; do
       if [ "$mode" = test ]; then (cd sim && $GO test -c -vet=off ${VERIF_MODFLAG:-} -tags "$tg" -o "$T/b-$tg" ./cmd/$cmdp) || exit 2; else (cd sim && $GO build ${VERIF_MODFLAG:-} -tags "$tg" -o "$T/b-$tg" ./cmd/$cmdp) || exit 2; fi
-      VERIF_ED_ONLY=1 "$T/b-$tg" trace -prop $pr -engine $eng -seed $s -from $run -to $((run+1)) -v 2>&1 | grep -v '^  ~ ' > "$T/t-$tg.txt"
+      VERIF_PROG_FAMILY=bn256 VERIF_ED_ONLY=1 "$T/b-$tg" trace -prop $pr -engine $eng -seed $s -from $run -to $((run+1)) -v 2>&1 | grep -v '^  ~ ' > "$T/t-$tg.txt"
     done
     if cmp -s "$T/t-$ta.txt" "$T/t-$tb.txt"; then echo "NOT-REPRODUCED property=C18 (transcripts identical under $ta and $tb)"; exit 0; fi
     echo "REPRODUCED property=C18 transcripts of $eng run $run differ between builds [$ta] and [$tb]"; diff "$T/t-$ta.txt" "$T/t-$tb.txt" | head -20
@@ -42,7 +42,7 @@ compare() { # cmd mode engine prop tagsA tagsB
   local cmdp=$1 mode=$2 eng=$3 pr=$4 ta=$5 tb=$6
   for tg in "$ta" "$tb"; do
     [ -x "$T/$cmdp-$tg" ] || build $cmdp "$tg" $mode "$T/$cmdp-$tg"
-    [ -f "$T/$eng-$tg.txt" ] || VERIF_ED_ONLY=1 "$T/$cmdp-$tg" trace -prop $pr -engine $eng -seed $seed -from 0 -to $K -v 2>&1 | grep -v '^  ~ ' > "$T/$eng-$tg.txt"
+    [ -f "$T/$eng-$tg.txt" ] || VERIF_PROG_FAMILY=bn256 VERIF_ED_ONLY=1 "$T/$cmdp-$tg" trace -prop $pr -engine $eng -seed $seed -from 0 -to $K -v 2>&1 | grep -v '^  ~ ' > "$T/$eng-$tg.txt"
   done
   pairs=$((pairs+1)); runs_compared=$((runs_compared+K)); lines=$((lines+$(wc -l < "$T/$eng-$ta.txt")))
   if ! cmp -s "$T/$eng-$ta.txt" "$T/$eng-$tb.txt"; then
@@ -63,11 +63,14 @@ for e in dsssim:C12 vsssim:C10 dkgsim:C11 pvsssim:C13; do
   compare xbuild test ${e%:*} ${e#*:} verif verif,constantTime,purego
 done
 compare xbuildbn plain signsim C09 verif verif,generic
+K=$((K*10))   # the bn256 edge-limb programs are cheap: ten times as many runs
+compare xbuildbn plain heterosim C18 verif verif,generic
+K=$((K/10))
 smp=$(head -c 600 "$T/dkgsim-verif,constantTime.txt" | jq -Rs .)
 xb_wall=$(( $(date +%s) - t0 ))
 jq -n --argjson pairs $pairs --argjson runs $runs_compared --argjson lines $lines --argjson v $viol --argjson w $xb_wall --argjson k $K --argjson smp "$smp" \
   '{cross_build:{build_pairs_compared:$pairs, runs_per_pair:$k, run_transcripts_compared:$runs, transcript_lines_compared:$lines, differing_pairs:$v, wall_s:$w,
-    builds:["default","constantTime","constantTime+purego","generic (signing engine)"], transcript_sample:$smp,
+    builds:["default","constantTime","constantTime+purego","generic (signing engine and bn256 edge-limb replicated programs)"], transcript_sample:$smp,
     note:"a transcript = the full event log of a run: every delivery and verdict, message and packet digests, output shares, keys and signatures"}}' > "$T/extra.json"
 if [ -n "${VERIF_MODFLAG:-}" ]; then
   (cd sim && $GO test -c -vet=off $VERIF_MODFLAG -tags verif -o "$T/verif" ./cmd/verif) || exit 2
